@@ -102,15 +102,16 @@ Definition spec_size_line (prev : bytes -> option Z) (f : relfile) : bytes :=
 Definition spec_size_lines (cur : list relfile) (prev : bytes -> option Z) : list bytes :=
   isort (map (spec_size_line prev) (filter (spec_size_listed prev) cur)).
 
-(* the previous invocation: the greatest path (strcmp) among the directories
-   of robsddir that are not hidden, not the attic and not this invocation *)
+(* WHAT THE CODE TAKES for the previous invocation, said without its sorting: the greatest path (strcmp) among the
+   directories of robsddir that are not hidden, not the attic and not this invocation.  This is a description of
+   report.c previous_builddir (DurationProofs.previous_is_by_name), not the specification. *)
 Definition path_max (a : option bytes) (p : bytes) : option bytes :=
   match a with
   | None => Some p
   | Some q => match strcmp q p with Lt => Some p | _ => Some q end
   end.
 
-Definition spec_previous (cfg : cfgview) (fs : files) : option bytes :=
+Definition previous_by_name (cfg : cfgview) (fs : files) : option bytes :=
   match f_root fs with
   | None => None
   | Some ents =>
@@ -119,14 +120,69 @@ Definition spec_previous (cfg : cfgview) (fs : files) : option bytes :=
                 (invocation_read (c_robsddir cfg) (c_keepdir cfg) ents)) None
   end.
 
-Definition spec_sizes (m : mode) (cfg : cfgview) (fs : files) : list bytes :=
+(* THE SPECIFICATION: "the previous invocation" is the invocation that was created last before this one.
+   [age] lists the entries of robsddir (full paths) in the order they were created, oldest first - something
+   whoever made the directories knows (the harness; the sequence of build_id calls) and the file names need not
+   show: build names are <date>.<n> with n unpadded (util.sh build_id), so 2024-01-02.9 sorts after 2024-01-02.10
+   and .11.  The invocations are the entries invocation_read accepts (directories, not hidden, not keep-dir). *)
+Fixpoint created_before (me : bytes) (age : list bytes) : list bytes :=
+  match age with
+  | [] => []
+  | p :: t => if beq p me then [] else p :: created_before me t
+  end.
+
+Definition last_opt (l : list bytes) : option bytes :=
+  fold_left (fun _ p => Some p) l None.
+
+Definition spec_previous (cfg : cfgview) (fs : files) (age : list bytes) : option bytes :=
+  match f_root fs with
+  | None => None
+  | Some ents =>
+      let inv := invocation_read (c_robsddir cfg) (c_keepdir cfg) ents in
+      last_opt (filter (fun p => mem p inv) (created_before (c_builddir cfg) age))
+  end.
+
+Definition sizes_against (m : mode) (prev : option bytes) (fs : files) : list bytes :=
   match m with
   | Robsd =>
-      match spec_previous cfg fs, f_rel fs with
+      match prev, f_rel fs with
       | Some prev, Some cur => spec_size_lines cur (f_prev_rel fs prev)
       | _, _ => []
       end
   | _ => []
+  end.
+
+(* the Size: lines compare with the previous invocation *)
+Definition spec_sizes (m : mode) (cfg : cfgview) (fs : files) (age : list bytes) : list bytes :=
+  sizes_against m (spec_previous cfg fs age) fs.
+(* what the code compares with *)
+Definition sizes_by_name (m : mode) (cfg : cfgview) (fs : files) : list bytes :=
+  sizes_against m (previous_by_name cfg fs) fs.
+
+(* the guard under which name order is creation order as far as "previous" goes: every invocation is in [age],
+   the invocations in creation order are in strictly ascending strcmp order, and nothing was created after this
+   one.  True for names of equal length (fewer than ten builds a day) when the report is made by the invocation
+   itself; false from the eleventh build of a day on *)
+Fixpoint ascendingb (l : list bytes) : bool :=
+  match l with
+  | a :: ((b :: _) as t) => match strcmp a b with Lt => ascendingb t | _ => false end
+  | _ => true
+  end.
+
+Fixpoint created_after (me : bytes) (age : list bytes) : list bytes :=
+  match age with
+  | [] => []
+  | p :: t => if beq p me then t else created_after me t
+  end.
+
+Definition name_order_is_age (cfg : cfgview) (fs : files) (age : list bytes) : bool :=
+  match f_root fs with
+  | None => true
+  | Some ents =>
+      let inv := invocation_read (c_robsddir cfg) (c_keepdir cfg) ents in
+      forallb (fun p => mem p age) inv &&
+      ascendingb (filter (fun p => mem p inv) age) &&
+      forallb (fun p => negb (mem p inv)) (created_after (c_builddir cfg) age)
   end.
 
 Definition sizes_in_range (cur : list relfile) (prev : bytes -> option Z) : bool :=
@@ -160,15 +216,20 @@ Definition spec_ok_step_duration (x : fixture) (k : nat) (text : bytes) : bool :
       end
   end.
 
-(* the Size: lines, in print order *)
+(* the Size: lines, in print order: against the invocation created last before this one ([x_age]) *)
 Definition spec_ok_sizes (x : fixture) (lines : list bytes) : bool :=
-  match x_mode x, spec_previous (cfg_of x) (files_of x), x_rel x with
+  match x_mode x, spec_previous (cfg_of x) (files_of x) (x_age x), x_rel x with
   | Robsd, Some prev, Some cur =>
       if sizes_in_range cur (f_prev_rel (files_of x) prev)
-      then list_eqb beq lines (spec_sizes Robsd (cfg_of x) (files_of x))
+      then list_eqb beq lines (spec_sizes Robsd (cfg_of x) (files_of x) (x_age x))
       else true
   | _, _, _ => match lines with [] => true | _ => false end
   end.
+
+(* the same judged against the greatest other name: tells "the code does what its model says" from "the code
+   compares with the wrong invocation" when [spec_ok_sizes] fails (the harness classifies with it; not a verdict) *)
+Definition sizes_as_by_name (x : fixture) (lines : list bytes) : bool :=
+  list_eqb beq lines (sizes_by_name (x_mode x) (cfg_of x) (files_of x)).
 
 (* what duration_total -s step.csv printed under bash *)
 Definition spec_ok_shell (x : fixture) (text : bytes) : bool :=
@@ -176,3 +237,61 @@ Definition spec_ok_shell (x : fixture) (text : bytes) : bool :=
   | None => true
   | Some rows => beq text (render_Z (spec_accumulated (x_mode x) rows))
   end.
+
+(* ---- the oracle on the BYTES robsd-report printed ----------------------------------------------------------------- *)
+
+(* The report with its Duration: and Size: lines as specified: the total and each step duration as
+   [spec_duration_text] where the numbers are in the property's range, the Size: lines against the previous invocation
+   by creation order where the sizes are in range.  Whether there is a report, its status, which rows are listed and
+   their bodies are C05's: there the report is the model's of the working tree ([report_struct_rows_gen cur_sw]),
+   as are the numbers outside the ranges - so this oracle fires for a wrong number and for nothing else. *)
+Definition spec_total_text (m : mode) (rows : list srow) : bytes :=
+  let '(d, delta) := spec_total m rows in
+  if in_range d && delta_in_range delta then spec_duration_text d delta 60 else stats_duration m rows.
+
+Definition spec_step_text (r : srow) : bytes :=
+  if in_range (r_duration r) && delta_in_range (r_delta r)
+  then spec_duration_text (r_duration r) (r_delta r) 0 else step_duration r.
+
+Definition spec_sizes_text (x : fixture) : list bytes :=
+  match x_mode x, spec_previous (cfg_of x) (files_of x) (x_age x), x_rel x with
+  | Robsd, Some prev, Some cur =>
+      if sizes_in_range cur (f_prev_rel (files_of x) prev)
+      then spec_sizes Robsd (cfg_of x) (files_of x) (x_age x)
+      else report_sizes Robsd (cfg_of x) (files_of x)
+  | _, _, _ => []
+  end.
+
+Definition spec_report_numbers (x : fixture) : option Report :=
+  match rows_of x with
+  | None => None
+  | Some rows =>
+      match report_struct_rows_gen cur_sw (spec_total_text (x_mode x) rows) spec_step_text (spec_sizes_text x)
+                                   (x_mode x) (cfg_of x) rows (files_of x) with
+      | RErr => None
+      | ROk rep => Some rep
+      end
+  end.
+
+Definition spec_ok_bytes_numbers (x : fixture) (exit : N) (out : bytes) : bool :=
+  match spec_report_numbers x with
+  | None => (exit =? 1) && beq out []
+  | Some rep => (exit =? 0) && beq out (spec_sanitize (render_raw (x_host x) rep))
+  end.
+
+(* the same verdict with "previous" read as the greatest other name ([isort]: ascending by strcmp, this invocation put
+   last).  Not a verdict: when [spec_ok_bytes_numbers] fails and this passes, the implementation printed exactly the
+   report against the greatest other name - the harness then names the failure by the input class *)
+Definition with_age (x : fixture) (a : list bytes) : fixture :=
+  mkfix (x_mode x) (x_host x) (x_builddir x) (x_running x) (x_robsddir x) (x_keepdir x) (x_machine x) (x_canvas x)
+        (x_regress x) (x_step x) (x_logs x) (x_tmp x) (x_comment x) (x_tags x) (x_target x) (x_root x) (x_rel x) (x_prev x) a.
+
+Definition age_by_name (x : fixture) : list bytes :=
+  match x_root x with
+  | None => []
+  | Some ents =>
+      isort (filter (fun p => negb (beq p (x_builddir x))) (invocation_read (x_robsddir x) (x_keepdir x) ents)) ++ [x_builddir x]
+  end.
+
+Definition bytes_numbers_as_by_name (x : fixture) (exit : N) (out : bytes) : bool :=
+  spec_ok_bytes_numbers (with_age x (age_by_name x)) exit out.
